@@ -60,13 +60,18 @@ def evaluate(case: Dict[str, Any]) -> Dict[str, Any]:
 
     cur = {"A": A}
 
+    # "far" histories live far from the origin (|x| up to 1e7, steps down to 1e-4) and contain candidates whose step is almost
+    # orthogonal to the gradient change, with a slightly negative s.y: the curvature test must still be decided on s = x_k - x_old
+    far = bool(case.get("far"))
+    center = (rng.standard_normal(n) * 10 ** r.uniform(3, 7)) if far else np.zeros(n)
+
     def grad(x, kind):
         if kind == "convex":
-            return cur["A"] @ x
+            return cur["A"] @ (x - center)
         if kind == "nonconvex":
-            return Aneg @ x + 0.3 * np.sin(3 * x)
+            return Aneg @ (x - center) + 0.3 * np.sin(3 * (x - center))
         return None
-    x = rng.standard_normal(n)
+    x = center + rng.standard_normal(n)
     X, G = deque([x.copy()]), deque([grad(x, "convex")])
     mats = LBFGSB_MATRICES(n)
     refX, refG = [x.copy()], [G[0].copy()]         # reference model of the memory
@@ -74,9 +79,21 @@ def evaluate(case: Dict[str, Any]) -> Dict[str, Any]:
     nacc = nrej = 0
     any_force = False
     for t in range(ncand):
-        kind = r.choices(["convex", "nonconvex", "zero_y", "same_x"], [6, 3, 1, 1])[0]
-        xn = X[-1] + rng.standard_normal(n) * 10 ** r.uniform(-3, 0.5)
-        if kind == "zero_y":
+        kind = r.choices(["convex", "nonconvex", "zero_y", "same_x", "near_orth"], [6, 3, 1, 1, 4 if far and n > 1 else 0])[0]
+        xn = X[-1] + rng.standard_normal(n) * 10 ** (r.uniform(-4, -1) if far else r.uniform(-3, 0.5))
+        if kind == "near_orth":
+            s_ = xn - X[-1]
+            v_ = rng.standard_normal(n)
+            if float(s_ @ s_) == 0.0:
+                kind = "nonconvex"
+            else:
+                yp = v_ - (float(v_ @ s_) / float(s_ @ s_)) * s_
+                yv = yp - 10 ** r.uniform(-8, -5) * (float(np.linalg.norm(yp)) / float(np.linalg.norm(s_))) * s_
+                gn = G[-1] + yv
+                out["tags"].append("near_orthogonal_negative_candidate")
+        if kind == "near_orth":
+            pass
+        elif kind == "zero_y":
             gn = G[-1].copy()
         elif kind == "same_x":
             xn, gn = X[-1].copy(), G[-1] + rng.standard_normal(n)
@@ -90,9 +107,9 @@ def evaluate(case: Dict[str, Any]) -> Dict[str, Any]:
             Q2, _ = np.linalg.qr(rng.standard_normal((n, n)))
             A2 = (Q2 * np.exp(rng.uniform(0, np.log(10 ** r.uniform(0, 2)), n))) @ Q2.T
             cur["A"] = 0.5 * (A2 + A2.T)
-            G = deque([cur["A"] @ xx for xx in X])
+            G = deque([cur["A"] @ (xx - center) for xx in X])
             refG = [g_.copy() for g_ in G]
-            gn = (cur["A"] @ xn) if kind == "convex" else (G[-1].copy() if kind in ("zero_y", "same_x") else G[-1] + (grad(xn, kind) - grad(X[-1], kind)))
+            gn = (cur["A"] @ (xn - center)) if kind == "convex" else (G[-1].copy() if kind in ("zero_y", "same_x") else (G[-1] + yv) if kind == "near_orth" else G[-1] + (grad(xn, kind) - grad(X[-1], kind)))
             if kind == "same_x":
                 xn = X[-1].copy()
         before = (vshex(list(X)), vshex(list(G)), mats_digest(mats))
@@ -196,7 +213,8 @@ def evaluate(case: Dict[str, Any]) -> Dict[str, Any]:
                 out["corr"].append(f"B·v: implementation vs Lean dense recursion differ by {float(np.max(np.abs(np.array(hexv(bd)) - a))):.2e}")
             if abs(hexf(th) - mats.theta) > 1e-10 * abs(mats.theta):
                 out["corr"].append("theta differs")
-    out["tags"] += [f"n<={4 * ((n + 3) // 4)}", f"maxcor={maxcor}", f"rejected={nrej > 0}", f"filled={nacc > maxcor}"]
+    out["tags"] = sorted(set(out["tags"]))
+    out["tags"] += [f"far_from_origin={far}", f"n<={4 * ((n + 3) // 4)}", f"maxcor={maxcor}", f"rejected={nrej > 0}", f"filled={nacc > maxcor}"]
     if nacc >= 2 and nrej >= 1:
         out["nontrivial"] = str(case["seed"])
     if case["seed"] % 97 == 0:
@@ -206,11 +224,11 @@ def evaluate(case: Dict[str, Any]) -> Dict[str, Any]:
 
 def run(tier: str, seed: int) -> int:
     n = 500 if tier == "quick" else 10000
-    cases = [{"seed": seed * 1_000_003 + i} for i in range(n)]
+    cases = [{"seed": seed * 1_000_003 + i, "far": i % 4 == 3} for i in range(n)]
     return run_property(
         PROP, "harness.props.c10", THEOREMS, MODULES, cases, tier, seed,
         rule="histories of 3..40 candidate updates (accepted pairs from a convex quadratic, rejected ones from negative curvature, zero y, "
-             "zero s), n 1..12, maxcor 1..10: after every candidate the deques are compared with a reference bounded FIFO, stored pairs "
+             "zero s), n 1..12, maxcor 1..10, a quarter of them far from the origin (|x| up to 1e7, steps down to 1e-4) with candidates whose step is almost orthogonal to the gradient change (slightly negative s.y): after every candidate the deques are compared with a reference bounded FIFO, stored pairs "
              "with the curvature condition, the compact product B·v (through W, invMfactors, bmv) with the dense BFGS recursion, SPD and "
              "secant; the Lean model replays the bookkeeping bit for bit and its compact and dense products are compared with the "
              "implementation; non-trivial = at least two accepted and one rejected candidate",
